@@ -98,13 +98,15 @@ def bind_refeval(ctx, part, rows):
 _ORDERS = {}
 
 
-def order_for(cone):
+def order_for(cone, dtype=float):
+    """the order of a table cone; dtype=int: the same matrix as the user would type it (whole numbers, integer dtype)"""
     import numpy as np
     from vopy.order import PolyhedralConeOrder
     from vopy.ordering_cone import OrderingCone
-    if cone not in _ORDERS:
-        _ORDERS[cone] = PolyhedralConeOrder(OrderingCone(np.array(CONES[cone]["W"], dtype=float)))
-    return _ORDERS[cone]
+    key = cone if dtype is float else (cone, "int")
+    if key not in _ORDERS:
+        _ORDERS[key] = PolyhedralConeOrder(OrderingCone(np.array(CONES[cone]["W"], dtype=dtype)))
+    return _ORDERS[key]
 
 
 # (scale, common translation): the predicates are invariant under a common translation of both regions, and
@@ -163,6 +165,12 @@ def replay_rows(args):
                         continue
                     if got != exp:
                         bad.append({"kind": "rect-dom", "row": r, "scale": k, "slack_form": form, "expected": exp, "got": got})
+                    if k == DYADIC[1] or k == DECIMAL[2]:
+                        # the same cone typed with whole numbers (integer dtype matrix), regions with fractional coordinates
+                        got_i = bool(confidence_region_is_dominated(order_for(r["cone"], int), R1, R2, sl))
+                        calls += 1
+                        if got_i != exp:
+                            bad.append({"kind": "rect-dom-intW", "row": r, "scale": k, "slack_form": form, "expected": exp, "got": got_i})
             elif part == "cov":
                 lo, mid, hi = a["cov"]
                 if lo != hi:
@@ -183,6 +191,11 @@ def replay_rows(args):
                 if dy and relaxed == strict and got != a["pproc"]:
                     # robust configuration, exact data: the code is the procedure of the spec
                     bad.append({"kind": "rect-pdom-proc", "row": r, "scale": k, "expected": a["pproc"], "got": got})
+                if k == DYADIC[1] and relaxed == strict:
+                    got_i = bool(confidence_region_check_dominates(order_for(r["cone"], int), R1, R2))
+                    calls += 1
+                    if got_i != a["pproc"]:
+                        bad.append({"kind": "rect-pdom-intW", "row": r, "scale": k, "expected": a["pproc"], "got": got_i})
     return calls, bad
 
 
